@@ -1142,6 +1142,8 @@ def search(run: lib.Run, broken):
     per_type = len(strings) if hard else 110
     for tname, T in specs.items():
         ss = strings if per_type >= len(strings) else (strings[:50] + rng.sample(strings[50:], per_type - 50))
+        if tname.startswith("bare:") and not hard:
+            ss = strings[:35] + rng.sample(strings[35:], 25)
         # wire texts of this type's own values are always in
         for m in WIRE.get(WIRE_FOR.get(tname, ""), []):
             ss = ss + [stdjson.dumps(m), repr(m)]
